@@ -127,7 +127,8 @@ Record moveInfo := mkMI {
   mi_move : move; mi_score : Z; mi_nodes : Z; mi_knownLoss : bool;
   mi_depth : Z; mi_alpha : Z; mi_beta : Z; mi_pv : list move }.
 
-Definition newMI (m : move) : moveInfo := mkMI m 0 0 false 0 0 0 [].   (* MoveInfo(m, 0); Move score 0 *)
+(** MoveInfo(m, 0): the Move is copied with the score scoreMoveList gave it *)
+Definition newMI (p : scored) : moveInfo := mkMI (fst p) (snd p) 0 false 0 0 0 [].
 
 (** Search::getRootMoves.
     [limited] = (maxTimeMillis >= 0 || maxNodes >= 0 || maxDepth >= 0); [legal] = the legal moves generated
@@ -143,7 +144,7 @@ Definition getRootMoves (rootMovesIn legal : list move) (limited : bool)
       | None => rootMovesIn
       end
     else rootMovesIn in
-  let sorted := map fst (selSort (length rootMoves) (map (fun m => (m, ord m)) rootMoves)) in
+  let sorted := selSort (length rootMoves) (map (fun m => (m, ord m)) rootMoves) in
   match length sorted with
   | O => None
   | S _ =>
@@ -170,7 +171,7 @@ Definition mkInfoLine (x : moveInfo) (multiPVIndex : Z) : list line :=
   else let '(isMate, sc) := formatScore (mi_score x) in
        [mkLine (mi_depth x) isMate sc (boundOf (mi_score x) (mi_alpha x) (mi_beta x)) (mi_pv x) multiPVIndex].
 
-Definition dfltMI : moveInfo := newMI emptyMove.
+Definition dfltMI : moveInfo := newMI (emptyMove, 0).
 Definition getMI (rm : list moveInfo) (i : nat) : moveInfo := nth i rm dfltMI.
 
 (** Search::notifyPV(moveInfo, mi, maxPV): which entries are reported, in which order, with which running
